@@ -31,6 +31,19 @@ CLAIMS = {
              "program - the inductive step that makes the iteration count irrelevant.",
         technique="symbolic execution of the real VM with depth monitors (CrossHair/z3), one-step lemma + inductive residue invariant",
         design_ref="DESIGN.md section 4 (C02)"),
+    "C04": dict(
+        text="Front end: Parser and Compiler are executed on symbolic source text - one and two characters (any ASCII character as a "
+             "solver variable, first character by lexical class; 26 pinned non-ASCII code points), one symbolic character spliced "
+             "into every position of 20 small valid programs, every prefix/deletion/duplication/transposition of the corpus "
+             "programs: the outcome must be a value or a JSSyntaxError whose line/column lie inside the text, never another "
+             "exception, and every path must terminate. Runtime: every built-in callable reachable from a fresh Context (79 "
+             "global functions/constructors/statics, and every member that resolves to a function on 22 receiver kinds, the "
+             "member vocabulary regenerated from the engine's own string literals), called and constructed with 0-3 arguments "
+             "from an adversarial grid of 29 values (first argument solver-indexed, second swept), plus 30 operator/statement "
+             "forms over the same grid, each as a one-line script through Context.eval: only the JSError family may escape.",
+        technique="symbolic execution of the real lexer/parser/compiler on symbolic text (CrossHair/z3) + solver-indexed sweep of the "
+                  "regenerated API surface against an adversarial argument grid",
+        design_ref="DESIGN.md section 4 (C04)"),
     "C05": dict(
         text="Differential symbolic execution: the real compiler+VM and a definitional ECMAScript interpreter "
              "(vf/refsem/interp.py) run the same skeleton program on the same symbolic data (loop bound, exit "
